@@ -7,6 +7,7 @@ import (
 	"testing"
 
 	"github.com/dtn7/dtn7-go/pkg/bpv7"
+	"github.com/dtn7/dtn7-go/pkg/cla"
 	vk "github.com/dtn7/dtn7-go/pkg/verifkit"
 )
 
@@ -21,6 +22,7 @@ type c15Case struct {
 	BlockFl  uint64 `json:"block_flags,omitempty"` // flags of the unknown block (outcome "unknown-block")
 	RptSelf  bool   `json:"rpt_self"`              // report-to is an endpoint of this node
 	RptOther bool   `json:"rpt_other_authority"`   // ... namely an endpoint with another node name which a local agent has registered
+	RptCLA   int    `json:"rpt_listener,omitempty"` // ... namely under the node name of the first (1) or second (2) of two listeners of one CLA type
 }
 
 var c15Outcomes = []string{"delivered", "no-agent", "forwarded", "send-fails", "expired", "hop-exceeded", "unknown-block", "no-route",
@@ -95,7 +97,12 @@ func c15Body(c *vk.Ctx, cs c15Case) {
 	var svc *vfAgent
 	if cs.RptSelf {
 		rptEID = vfNodeName + "app2"
-		if cs.RptOther {
+		if cs.RptCLA > 0 {
+			// two listeners of the same convergence layer type with node names of their own (dtnd registers them like this)
+			s.core.claManager.RegisterEndpointID(cla.TCPCLv4, bpv7.MustNewEndpointID("dtn://gw-a/"))
+			s.core.claManager.RegisterEndpointID(cla.TCPCLv4, bpv7.MustNewEndpointID("dtn://gw-b/"))
+			rptEID = []string{"dtn://gw-a/reports", "dtn://gw-b/reports"}[cs.RptCLA-1]
+		} else if cs.RptOther {
 			// an endpoint of this node that does not carry the node's name (a service or group endpoint)
 			rptEID = "dtn://service/inbox"
 			svc = vfNewAgent(bpv7.MustNewEndpointID(rptEID))
@@ -351,7 +358,7 @@ func eidSpec(uri string) vk.EIDSpec {
 
 func TestVerifC15Matrix(t *testing.T) {
 	u := vk.Unit{Property: "C15", Name: "c15.matrix",
-		Rule: "matrix: {16 combinations of the four status-request flags} x {time flag} x {fragment / whole} x outcome {delivered to an agent, addressed to the node without agent, forwarded, all sends fail, lifetime expired, hop limit exceeded, no route, unknown block x 8 block-flag combinations, and the variants in which the event happens on a retry from the store: forwarded later, sends fail then succeed, hop limit exceeded later, unknown block + forwarded later} x {report-to = a peer / an endpoint under this node's name / an endpoint with another node name registered by a local agent}, each cell on a fresh node (quick: every third cell with epidemic; thorough: every cell with epidemic, spray and prophet); every administrative-record bundle captured at a scripted peer or agent is decoded with the independent reader and must be well-formed, addressed to the report-to endpoint, reference the exact bundle ID (incl. fragment offset/length), carry one asserted item, a time iff requested, no request flags, and be justified by a logged event and a request, each (status, reason) reported at most once; captured reports are fed back into the node (as transit and as local bundles) and must not produce further reports; non-trivial = cell with >= 1 request flag; distinct by case"}
+		Rule: "matrix: {16 combinations of the four status-request flags} x {time flag} x {fragment / whole} x outcome {delivered to an agent, addressed to the node without agent, forwarded, all sends fail, lifetime expired, hop limit exceeded, no route, unknown block x 8 block-flag combinations, and the variants in which the event happens on a retry from the store: forwarded later, sends fail then succeed, hop limit exceeded later, unknown block + forwarded later} x {report-to = a peer / an endpoint under this node's name / an endpoint with another node name registered by a local agent / the node name of the first or second of two listeners of one convergence-layer type}, each cell on a fresh node (quick: every third cell with epidemic; thorough: every cell with epidemic, spray and prophet); every administrative-record bundle captured at a scripted peer or agent is decoded with the independent reader and must be well-formed, addressed to the report-to endpoint, reference the exact bundle ID (incl. fragment offset/length), carry one asserted item, a time iff requested, no request flags, and be justified by a logged event and a request, each (status, reason) reported at most once; captured reports are fed back into the node (as transit and as local bundles) and must not produce further reports; non-trivial = cell with >= 1 request flag; distinct by case"}
 	var cells []c15Case
 	reqs := []uint64{}
 	for m := 0; m < 16; m++ {
@@ -391,6 +398,7 @@ func TestVerifC15Matrix(t *testing.T) {
 								cells = append(cells, c15Case{Algo: a, Req: req, Time: tm, Fragment: fr, Outcome: oc, BlockFl: bf, RptSelf: self})
 								if self {
 									cells = append(cells, c15Case{Algo: a, Req: req, Time: tm, Fragment: fr, Outcome: oc, BlockFl: bf, RptSelf: true, RptOther: true})
+									cells = append(cells, c15Case{Algo: a, Req: req, Time: tm, Fragment: fr, Outcome: oc, BlockFl: bf, RptSelf: true, RptCLA: 1 + len(cells)%2})
 								}
 							}
 						}
